@@ -136,6 +136,8 @@ where
 
     /// Set the record atomic flags.
     pub fn set_flags(&self, flags: Flags, val: bool, order: Ordering) {
+        #[cfg(feature = "verif")]
+        crate::verif::atomic_point();
         match val {
             true => self.flags.fetch_or(flags.bits(), order),
             false => self.flags.fetch_and(!flags.bits(), order),
@@ -144,11 +146,15 @@ where
 
     /// Get the record atomic flags.
     pub fn get_flags(&self, flags: Flags, order: Ordering) -> bool {
+        #[cfg(feature = "verif")]
+        crate::verif::atomic_point();
         self.flags.load(order) & flags.bits() == flags.bits()
     }
 
     /// Get the atomic reference count.
     pub fn refs(&self) -> usize {
+        #[cfg(feature = "verif")]
+        crate::verif::atomic_point();
         self.refs.load(Ordering::Acquire)
     }
 
@@ -156,6 +162,8 @@ where
     ///
     /// This function returns the new reference count after the op.
     pub fn inc_refs(&self, val: usize) -> usize {
+        #[cfg(feature = "verif")]
+        crate::verif::atomic_point();
         let old = self.refs.fetch_add(val, Ordering::SeqCst);
         tracing::trace!(
             "[record]: inc record (hash: {}) refs: {} => {}",
@@ -170,6 +178,8 @@ where
     ///
     /// This function returns the new reference count after the op.
     pub fn dec_refs(&self, val: usize) -> usize {
+        #[cfg(feature = "verif")]
+        crate::verif::atomic_point();
         let old = self.refs.fetch_sub(val, Ordering::SeqCst);
         tracing::trace!(
             "[record]: dec record (hash: {}) refs: {} => {}",
